@@ -65,12 +65,13 @@ class ThreadKey(Iterable[str]):
 
     @classmethod
     def _subject(cls, value: str) -> str:
-        match = cls._first_match(
-            value, cls._fwd_pattern, cls._re_pattern, cls._listtag_pattern)
-        if match is None:
-            return cls._whitespace.sub(' ', value.strip())
-        else:
-            return cls._subject(value[match.end(0):])
+        while True:
+            match = cls._first_match(
+                value, cls._fwd_pattern, cls._re_pattern,
+                cls._listtag_pattern)
+            if match is None:
+                return cls._whitespace.sub(' ', value.strip())
+            value = value[match.end(0):]
 
     @classmethod
     def get_all(cls, header: MessageHeader) -> Sequence[ThreadKey]:
